@@ -141,6 +141,23 @@ def run(p):
                 okh = h2 == 0
             p.check(d <= TOL_HZ and okh, 'mga:roundtrip', 'roundtrip', inp, [z2, e2, n2, h2, {'horizontal_m': d}],
                     [zone, e, n, 0 if isinstance(ht, str) else ht, 'within 0.3 mm / 0.2 mm'], call2)
+    # (d0) a 3x1 column of variances held in an integer array gives what the equal float column gives
+    for _ in range(p.n(60, 1500)):
+        zone, e, n, ht = grid_input(rng)
+        col_i = np.array([[rng.randrange(1, 10)] for _ in range(3)], dtype=rng.choice([np.int64, np.int32]))
+        col_f = col_i.astype(float)
+        for lbl, (fwd, bwd, mk) in DIRS.items():
+            inp = [lbl, zone, e, n, ht, col_i.tolist(), str(col_i.dtype)]
+            call = call_of(fwd, zone, e, n, ht, col_i) + f'  # dtype {col_i.dtype}'
+            ok, r = p.guarded('mga:vcv-raises', 'vcv_column_dtype', inp, lambda: (apply(fwd, zone, e, n, ht, col_i), apply(fwd, zone, e, n, ht, col_f)), call)
+            if not ok:
+                continue
+            p.case('vcv_column_dtype', inp)
+            vi, vf = r[0][4], r[1][4]
+            same = vi is not None and vf is not None and np.asarray(vi).shape == np.asarray(vf).shape \
+                and float(np.max(np.abs(np.asarray(vi, dtype=float) - np.asarray(vf, dtype=float)))) <= 1e-9
+            p.check(same, 'mga:vcv-value', 'vcv_column_dtype', inp, None if vi is None else np.asarray(vi, dtype=float).tolist(),
+                    None if vf is None else np.asarray(vf, dtype=float).tolist(), call)
     # (d) covariance
     for _ in range(p.n(500, 15000)):
         zone, e, n, ht = grid_input(rng)
